@@ -870,7 +870,8 @@ struct Value {
             return value_->operator==(val);
         }
 
-        return (type > val.Type());
+        // values of different kinds are never equal.
+        return false;
     }
 
     void Merge(Value &&val) {
